@@ -856,6 +856,7 @@ def gauss_quadrature(ctx, n, qtype = "legendre", alpha = 0, beta = 0):
             e[i] = 1 / ctx.mpf(2)
     elif qtype == "glaguerre":
         # generalized laguerre on the range 0 +inf
+        alpha = ctx.mpf(alpha)
         w = ctx.gamma(1 + alpha)
         for i in xrange(n):
             j = i + 1
